@@ -141,8 +141,8 @@ CLAIMS = {
              "one; the same for the two-level loop (solve_ over search, flags polled before every round and in every "
              "iteration after propagate; a request visible at any poll of any round). Tie: the harness "
              "calls notifyStop / notifyGlobalStop from another thread after a random delay between zero and 1.5 times the "
-             "solving time of the instance (measured on an undisturbed run; small big-coefficient arithmetic instances and, every "
-             "other round, planted 3-SAT instances near the threshold with many conflicts), requires unknown or the undisturbed "
+             "solving time of the instance (measured on an undisturbed run; small big-coefficient arithmetic instances and, two "
+             "rounds of three, planted 3-SAT instances near the threshold with many conflicts), requires unknown or the undisturbed "
              "answer, asks the same solver again afterwards (after a reset global request: the undisturbed answer), "
              "with no ThreadSanitizer report.",
         design_ref="5 C25"),
